@@ -5,9 +5,11 @@ from harness import gen
 from harness.framework import Suite
 
 PID = "C07"
-READY = False
 LEAN_MODS = ["SwcVerif.Props.C07"]
-THEOREMS = []
+THEOREMS = [
+    "C07.rootPath_spec", "C07.redirect_pids", "C07.redirect_edges", "C07.redirect_root", "C07.redirect_types", "C07.redirect_at_root",
+    "C07.translate_coincides", "C07.cat_separate", "C07.cat_merged",
+]
 TRUSTED = ["hand-written models Model/Redirect.lean of redirect_tree / cat_tree (tied by the c07.redirect and c07.cat correspondence: parents, node identity, "
            "positions and types after the final sort compared exactly); the final sort is C05's model"]
 ASSUMPTIONS = ["lattice coordinates: the junction test `norm < EPS` is `squared distance = 0` on exact integers",
